@@ -185,12 +185,12 @@ WindStepBytes(cc) == Offset(cc, 2 * cc.nz + 2)
 RECURSIVE WindLegacyLoop(_, _, _, _)
 WindLegacyLoop(total, times, inc, len) ==
   IF total < len THEN WindLegacyLoop(total + inc, times + 1, inc, len) ELSE times - 1
-WindOpenF(cc, nn, legacy) ==
-  IF nn < WindDummyOffset(cc) + 4 THEN [k |-> "Err", n |-> 0]        \* first step cannot be walked
-  ELSE IF nn % 4 # 0 THEN [k |-> "Err", n |-> 0]                      \* not a whole number of words
-  ELSE LET times == IF legacy THEN WindLegacyLoop(3, 0, WindStepBytes(cc) - 12, nn)
-                    ELSE nn \div WindStepBytes(cc)
+WindOpenZ(wd, sb, nn, legacy) ==
+  IF nn < wd + 4 THEN [k |-> "Err", n |-> 0]        \* first step cannot be walked
+  ELSE IF nn % 4 # 0 THEN [k |-> "Err", n |-> 0]     \* not a whole number of words
+  ELSE LET times == IF legacy THEN WindLegacyLoop(3, 0, sb - 12, nn) ELSE nn \div sb
        IN IF times <= 0 THEN [k |-> "Err", n |-> 0] ELSE [k |-> "Steps", n |-> times]
+WindOpenF(cc, nn, legacy) == WindOpenZ(WindDummyOffset(cc), WindStepBytes(cc), nn, legacy)
 
 \* ---- the cloud/rain reader's decision procedure on the first n bytes
 \* the header gives the grid; the number of variables is not stored: the reader
@@ -232,8 +232,9 @@ ConcreteWord(fld, h24) ==
     [] fld.t = "edate" -> IF h24 /\ fld.v[2] = 0 THEN I(YYJJJ(<<fld.v[1] - 1, 0, 0>>)) ELSE I(YYJJJ(fld.v))
     [] fld.t = "ehour" -> IF h24 /\ fld.v[2] = 0 THEN F(24) ELSE F(HourOf(fld.v))
     [] OTHER -> fld
-Concrete(c) == [r \in 1..Len(Layout(c)) |-> [k \in 1..Len(Layout(c)[r]) |-> ConcreteWord(Layout(c)[r][k], c.h24)]]
-ConcreteC(c) == [r \in 1..Len(LayoutC(c)) |-> [k \in 1..Len(LayoutC(c)[r]) |-> ConcreteWord(LayoutC(c)[r][k], c.h24)]]
+ConcreteOf(lay, h24) == [r \in 1..Len(lay) |-> LET rec == lay[r] IN [k \in 1..Len(rec) |-> ConcreteWord(rec[k], h24)]]
+Concrete(c) == LET lay == Layout(c) IN ConcreteOf(lay, c.h24)
+ConcreteC(c) == LET lay == LayoutC(c) IN ConcreteOf(lay, c.h24)
 \* "" or the first discrepancy of record r (index ri) against the layout
 RecordDiag(layout, ri, rec) ==
   IF ri > Len(layout) THEN "more records than the layout has"
